@@ -35,6 +35,10 @@ CHECKS = {
    technique="runtime monitoring: jail-confinement monitor (snapshot outside the target) + accept/reject monitor for hostile names over all mkdir routes",
    text="Every forest shape up to 4/5 nodes with one hostile name at every position and random forests with several hostile names go through MkdirFromMarkdown/MkdirFromRoot x dry-run/real x simple/massive x extension lists x 3 target forms; nothing outside the target may change whatever the outcome, unambiguously invalid names must be rejected, and without massive a rejected tree must leave the target untouched.",
    note="The jail nests the target five levels deep; massive calls are quiesced before the snapshot so late workers are judged on their own jail. A root named '.' is not required to be rejected."),
+ "C08": dict(level="exploration", design="DESIGN.md §4 C08",
+   technique="runtime monitoring: verdict/report monitor parsing Verify's error lists and comparing them with the model's missing/extra sets over materialised directory states; snapshot conservation",
+   text="For every labeled forest up to 5/6 nodes every prefix-closed subset of its node paths is materialised as directory state (leaves as files or directories, 0-3 extra entries inside, beside and nested under roots, states produced by real Mkdir with each extension list) and verified strict and non-strict through the four routes with explicit and default target: nil iff the model sees no difference, the first differing root's missing and extra lists exactly the model's, filesystem unchanged, and Mkdir-then-strict-Verify passes.",
+   note="No symlinks or unreadable directories; lists compared as sets; names contain no control characters (the report is line based)."),
 }
 PENDING = {}
 ids = [json.loads(l)["id"] for l in open("/verif/properties.jsonl")]
